@@ -479,7 +479,7 @@ func vgProduce(op vgOp, plane *Plane) *vgProduct {
 			wr := fswrapper.NewMemoryWrapper()
 			wr.SetFS(sfs)
 			api := efivarfs.Open(&efivarfs.EFIFS{FSWrapper: wr})
-			p.err = api.WriteSignedUpdate(v, rawVal(payload), signer, pk.Cert)
+			p.err = api.WriteSignedUpdate(v, libVal(payload, op.Reuse), signer, pk.Cert)
 			for _, ev := range sfs.Events {
 				if ev.Call == cWrite && len(ev.Buf) >= 4 {
 					p.out = ev.Buf[4:]
